@@ -338,11 +338,25 @@ def oracle_chain(case, real=None):
         return None
     if len(ops) == 2 and names[0] == 'select' and names[1] not in ('select', 'invert', 'end', 'buffer', 'map',
                                                                       'substitute', 'filter'):
-        if len(doc) != 1:
-            # a prolog node in front of the root element shifts the context of SimplePathStrategy
-            # (it pushes a stack entry for a non-START event): path semantics there is C05/C17's
-            return None
-        ev = G.evaluate(doc, ops[0][1])
+        if 'text' in ops[0][1] or not G.plain_doc(doc):
+            # a path of the shared grammar, or a document with namespace / DOCTYPE / CDATA events: XPath
+            # semantics is C05/C17's; the selection is what the transformer that ONLY selects marks (a
+            # with/without comparison on the real code: select-only, then select + operation)
+            only = run_real(doc, [ops[0]])
+            if only['status'] != 'ok':
+                return None
+            ev = G.selection_from_marks(doc, only['marked'])
+            if ev is None:
+                return fail(case, 'a transformer that only selects is the identity', _short(inp),
+                            _short(unmark(only['marked'])))
+            by_marks = True
+        else:
+            if len(doc) != 1:
+                # a prolog node in front of the root element shifts the context of SimplePathStrategy
+                # (it pushes a stack entry for a non-START event): path semantics there is C05/C17's
+                return None
+            ev = G.evaluate(doc, ops[0][1])
+            by_marks = False
         sel, selattrs = ev
         op = ops[1]
         if op[0] in INJ and op[1][0] == 'buf':
@@ -367,6 +381,8 @@ def oracle_chain(case, real=None):
                     got.append(e)
             if got != want:
                 return fail(case, 'the buffer receives exactly what selection returns', _short(want), _short(got))
+            if by_marks:
+                return None
             # and Path.select on the real code agrees with the tree evaluator
             from genshi.path import Path
             from genshi.core import Stream, _ensure
@@ -645,6 +661,18 @@ def valid_forest(nodes):
         elif k == 'p':
             if len(n) != 3 or not isinstance(n[1], str) or not n[1] or not isinstance(n[2], str):
                 return False
+        elif k == 'ns':
+            if len(n) != 3 or not isinstance(n[1], str) or not isinstance(n[2], str):
+                return False
+        elif k == 'ens':
+            if len(n) != 2 or not isinstance(n[1], str):
+                return False
+        elif k == 'd':
+            if len(n) != 4 or not isinstance(n[1], str) or not all(x is None or isinstance(x, str) for x in n[2:]):
+                return False
+        elif k in ('sc', 'ec'):
+            if len(n) != 1:
+                return False
         else:
             return False
     return True
@@ -652,6 +680,8 @@ def valid_forest(nodes):
 
 def valid_path(p):
     try:
+        if 'text' in p:
+            return list(p) == ['text'] and isinstance(p['text'], str) and G.text_path_ok(p['text'])
         if not p['alts']:
             return False
         for alt in p['alts']:
@@ -802,6 +832,16 @@ def w_event(e):
         return [Atom('AT'), w_qn(e[1]), w_attrs(e[2])]
     if k == 'BR':
         return Atom('BR')
+    if k == 'NS':
+        return [Atom('NS'), e[1], e[2]]
+    if k == 'ENS':
+        return [Atom('ENS'), e[1]]
+    if k == 'DT':
+        return [Atom('DT'), e[1], N if e[2] is None else e[2], N if e[3] is None else e[3]]
+    if k == 'SC':
+        return Atom('SC')
+    if k == 'EC':
+        return Atom('EC')
     raise ValueError(e)
 
 
@@ -810,6 +850,8 @@ def u_event(v):
     if isinstance(v, Atom):
         if v == 'BR':
             return ['BR']
+        if v in ('SC', 'EC'):
+            return [str(v)]
         raise ValueError(v)
     k = str(v[0])
     if k == 'S' or k == 'AT':
@@ -822,6 +864,13 @@ def u_event(v):
         return ['C', v[1]]
     if k == 'PI':
         return ['PI', v[1], v[2]]
+    if k == 'NS':
+        return ['NS', v[1], v[2]]
+    if k == 'ENS':
+        return ['ENS', v[1]]
+    if k == 'DT':
+        return ['DT', v[1], None if v[2] == 'N' and isinstance(v[2], Atom) else v[2],
+                None if v[3] == 'N' and isinstance(v[3], Atom) else v[3]]
     raise ValueError(v)
 
 
@@ -1055,6 +1104,9 @@ def process(cases, res):
                     res.count('chain:path-test-raised')
                 res.count('first-select:' + ('matches' if hits and hits[0] else 'empty'))
                 res.count('chain:' + ('in' if in_theorem_class(c['ops']) else 'outside') + '-chain_wellnested')
+                res.count('path:' + ('shared-grammar' if 'text' in c['ops'][0][1] else 'ast'))
+                for ft in sorted(G.doc_features(c['doc'])) or ['plain']:
+                    res.count('doc:' + ft)
                 if not G.admissible(c['ops']):
                     res.count('chain:outside-nesting-precondition')
                 k = chain_key(c, real)
